@@ -59,3 +59,24 @@ for name,(prop,what,needs,caught) in M.items():
       'quick_checks_reporting_a_violation':sorted([c for c,v in matrix.items() if v.get('exit')==1])}
     json.dump(meta,open(f'{d}/meta.json','w'),indent=1)
     print(name,(res[-1] if res else '??')[:90])
+
+# ---- regenerate the seed table of DESIGN.md (between the SEEDS markers)
+def design_table():
+    p='/verif/DESIGN.md'
+    s=open(p).read()
+    mp='/verif/seeded/MATRIX.json'
+    matrix=json.load(open(mp)) if os.path.exists(mp) else {}
+    rows=['| seed | seeded change | what it needs to manifest | quick checks reporting it (seed matrix) | note |','|---|---|---|---|---|']
+    for name,(prop,what,needs,caught) in sorted(M.items()):
+        d=f'/verif/seeded/{name}'
+        if not os.path.exists(f'{d}/patch.diff'): continue
+        hit=' '.join(sorted(c for c,v in matrix.get(name,{}).items() if v.get('exit')==1)) or '(matrix not run yet)'
+        note='after strengthening (14.4)' if 'after' in caught else 'as built'
+        rows.append(f"| {name} | {what} | {needs} | {hit} | {note} |")
+    table='\n'.join(rows)
+    b,e='<!-- SEEDS-BEGIN -->','<!-- SEEDS-END -->'
+    if b in s and e in s:
+        s=s[:s.index(b)+len(b)]+'\n'+table+'\n'+s[s.index(e):]
+        open(p,'w').write(s)
+        print('DESIGN.md seed table regenerated:',len(rows)-2,'seeds')
+design_table()
